@@ -192,8 +192,22 @@ def one_operand(ctx, alg, iso, cfg, name, canon, unit):
         sing = R.is_singular(X) if d <= 6 else None
         if sing:
             ctx.count('singular_operands_seen')
-        ctx.violation('inverse is not a two-sided inverse' if not sing else 'value returned for a singular operand',
-                      cid, op='inv', singular_per_oracle=sing, inverse=show_elem(mv_dict(xi)), products=bad, **wit)
+        kind = 'inverse is not a two-sided inverse' if not sing else 'value returned for a singular operand'
+        hp = None
+        if d >= 6 and not sing:
+            # the d >= 6 scheme evaluates expanded high-degree polynomials with float constants: distinguish a wrong formula from
+            # cancellation error by repeating the very same call with 400-bit mpmath coefficients
+            hp = high_precision_identity(ctx, alg, keys, vals, to)
+            if hp == 'exact-in-high-precision':
+                kind = 'inverse inaccurate in double precision (cancellation), exact in high precision'
+                ctx.count('float_cancellation_failures_d6plus')
+        err = None
+        try:
+            err = max(abs(complex(v) - (1 if k == 0 else 0)) for k, v in (prods[0] if st2 == 'ok' else refl).items())
+        except Exception:
+            pass
+        ctx.violation(kind, cid, op='inv', d=d, singular_per_oracle=sing, high_precision_recheck=hp, max_abs_error=err,
+                      inverse=show_elem(mv_dict(xi)), products=bad, **wit)
         return
     # division, number / x, negative powers
     rng = ctx.rng
@@ -235,3 +249,26 @@ def one_operand(ctx, alg, iso, cfg, name, canon, unit):
                               got=show_elem(iso.mv_to_ref(q)), expected=show_elem(want), **wit)
         elif st5 == 'exc':
             ctx.note_raised(q, 'pow')
+
+
+def high_precision_identity(ctx, alg, keys, vals, to):
+    try:
+        import mpmath
+    except Exception:
+        return 'unknown'
+    old = mpmath.mp.prec
+    mpmath.mp.prec = 400
+    try:
+        xm = gen.mv_from(alg, keys, [mpmath.mpf(vals[k].numerator) / vals[k].denominator for k in keys])
+        st, p = ctx.guarded(to * 2, lambda: (mv_dict(xm * xm.inv()), mv_dict(xm.inv() * xm)))
+        if st != 'ok':
+            return 'unknown'
+        for prod in p:
+            for k, v in prod.items():
+                if abs(mpmath.mpmathify(v) - (1 if k == 0 else 0)) > mpmath.mpf(10) ** -40:
+                    return 'wrong-in-high-precision'
+        return 'exact-in-high-precision'
+    except Exception:
+        return 'unknown'
+    finally:
+        mpmath.mp.prec = old
